@@ -25,6 +25,7 @@ if os.path.realpath(build.REPO) != "/repo":
 KEEP_DIR = os.path.join(ROOT, "replays", "keep")
 KNOWN_DIR = os.path.join(ROOT, "replays", "known")
 KNOWN_FILE = os.path.join(ROOT, "KNOWN_FINDINGS.txt")
+HANG_S = int(os.environ.get("VERIF_HANG_S", "150"))   # no generated case takes more than a few seconds; a replay that exceeds this is a hang
 
 
 def log(*a):
@@ -99,12 +100,16 @@ class Check:
         return [PY, "-m", "verif.worker", "--prop", self.pid, "--lib", self.shim,
                 "--tier", self.tier, "--out", out] + extra
 
-    def run_worker_sync(self, name, extra, timeout=3600):
+    def run_worker_sync(self, name, extra, timeout=None):
         out = os.path.join(self.bdir, name + ".json")
         last = os.path.join(self.bdir, name + ".last")
-        p = subprocess.run(self.worker_cmd(out, ["--lastcase", last] + extra), cwd=ROOT, env=self.env,
-                           stdout=subprocess.PIPE, stderr=subprocess.PIPE, text=True, errors="replace",
-                           timeout=timeout, preexec_fn=_limit_stack)
+        try:
+            p = subprocess.run(self.worker_cmd(out, ["--lastcase", last] + extra), cwd=ROOT, env=self.env,
+                               stdout=subprocess.PIPE, stderr=subprocess.PIPE, text=True, errors="replace",
+                               timeout=timeout or (HANG_S + 60 * max(1, extra.count("--replay"))), preexec_fn=_limit_stack)
+        except subprocess.TimeoutExpired:
+            # a replay that does not come back: reported like a crash (exit code -999 = did not terminate)
+            return -999, None, "timeout: the replay did not finish (a library call does not terminate)", last
         res = None
         if p.returncode in (0, 3) and os.path.isfile(out):
             res = json.load(open(out))
@@ -235,10 +240,37 @@ class Check:
                                  preexec_fn=_limit_stack)
             procs.append((i, p, out, last, errf))
         fuzz = self.start_fuzzers(plans)
+        # watchdog: a worker whose current case has not changed for HANG_S seconds is stuck inside one library call
+        # (termination is part of several properties); it is killed and its case becomes a hang candidate
+        hung = {}
+        pending = dict((i, (p, last)) for i, p, out, last, errf in procs)
+        while pending:
+            time.sleep(1.0)
+            now = time.time()
+            for i in list(pending):
+                p, last = pending[i]
+                if p.poll() is not None:
+                    del pending[i]
+                    continue
+                try:
+                    age = now - max(os.path.getmtime(last), os.path.getmtime(last + ".search"))
+                except OSError:
+                    age = 0     # still in its prelude (long deterministic sweeps), or not started yet
+                if age > HANG_S:
+                    try:
+                        hung[i] = core.loads(open(last).read())
+                    except Exception:
+                        hung[i] = None
+                    p.kill()
+                    del pending[i]
         # collect workers
         for i, p, out, last, errf in procs:
             rc = p.wait()
             errf.close()
+            if i in hung:
+                if hung[i] is not None and not self.violations:
+                    self.confirm_and_report(hung[i], "the case did not finish within %d s (a library call does not terminate)" % HANG_S, "hang", tag="hang-")
+                continue
             err = open(errf.name).read()
             if rc == 0 and os.path.isfile(out):
                 res = json.load(open(out))
